@@ -350,7 +350,7 @@ pub fn run(cfg: &Cfg, rep: &mut Report) {
     rep.end_history();
 
     // --- 2. random values of every bit length ---
-    let nrand: u64 = cfg.pick(30_000, 1_200_000);
+    let nrand: u64 = cfg.pick(100_000, 2_000_000);
     let mut samples = vec![];
     for h in 1..=nrand {
         if !cfg.runs(h) {
